@@ -31,6 +31,11 @@ class Z(int):
             return norm_num(Fraction(int(o), int(s)))
         return NotImplemented
 
+class ZF(Z):
+    """an integer value read out of a float-typed array: arithmetic is exact, but numpy refuses it as an index"""
+    __slots__ = ()
+    def __index__(s): raise IndexError('only integers, slices (`:`), ellipsis (`...`), numpy.newaxis (`None`) and integer or boolean arrays are valid indices')
+
 _TAB = {}
 _NEXT = [0]
 
@@ -153,15 +158,25 @@ def _leafy(t, depth=0):
 
 def div(a, b):
     a, b = num(a), num(b)
+    if is_t(a) and a is b: return 1          # callers establish b != 0 first (sc.div)
     if not is_t(b):
         if isinstance(b, float):
             if math.isinf(b): return 0
             raise Unsupported('div by nan')
         if b == 0: raise ZeroDivisionError('symx: division by concrete zero')
         return mul(Fraction(1, 1) / Fraction(b), a) if is_t(a) else norm_num(Fraction(a) / Fraction(b))
-    if is_t(b) and b.op == 'ite' and _leafy(b):
+    if is_t(b) and b.op == 'ite' and (_leafy(b) or _nleaves(b) <= 40):
+        # division by a case split (max/abs chains): divide inside each case, so every quotient has a plain divisor
         return ite(b.args[0], div(a, b.args[1]), div(a, b.args[2]))
+    if is_t(b) and b.op == 'mul' and not is_t(b.args[0]):
+        return div(div(a, b.args[0]), b.args[1])
     return mk('rdiv', [a, b], 'R')
+
+def _nleaves(t, lim=41):
+    if not is_t(t) or t.op != 'ite': return 1
+    n = _nleaves(t.args[1], lim)
+    if n >= lim: return n
+    return n + _nleaves(t.args[2], lim - n)
 
 def atom(name, x):
     """uninterpreted real function of one real argument; folds on numbers"""
@@ -331,7 +346,9 @@ def evaluate(t, env, memo=None):
         elif op == 'not': r = not v[0]
         elif op == 'and': r = all(v)
         elif op == 'or': r = any(v)
-        elif op == 'rdiv': r = Fraction(v[0]) / Fraction(v[1])
+        elif op == 'rdiv':
+            # a zero divisor only occurs in a branch the model does not take: poison it
+            r = float('nan') if (v[1] == 0 or isinstance(v[1], float) or isinstance(v[0], float)) else Fraction(v[0]) / Fraction(v[1])
         elif op == 'mod': r = v[0] % v[1]
         elif op == 'idiv': r = v[0] // v[1]
         elif op == 'floor': r = math.floor(v[0])
@@ -341,5 +358,6 @@ def evaluate(t, env, memo=None):
             r = env['__atoms__'].get(key) if '__atoms__' in env else None
             if r is None: r = atom(op, v[0])
         else: raise Unsupported('evaluate ' + op)
-        memo[x.id] = norm_num(r) if not isinstance(r, bool) else r
+        try: memo[x.id] = norm_num(r) if not isinstance(r, bool) else r
+        except (TypeError, ValueError): memo[x.id] = float('nan')
     return memo[t.id]
